@@ -120,6 +120,34 @@ fn one(rep: &mut Report, frags: &[Vec<Vec<u8>>], class: &str, table: &mut HashMa
     }
 }
 
+/// the header piece varies too: the same fragments under the suffixed payload type ("v4x.local.")
+/// in the same process, alternating with the plain header
+fn suffixed_header<B: crate::backend::Backend, P: crate::prims::Prims>(rep: &mut Report, kp: &crate::backend::KeyPair<B>, pk_raw: &[u8], key: &[u8; 32], nonce: &[u8], msg: &[u8], footer: &[u8], aad: &[u8]) {
+    use crate::backend::*;
+    use crate::refimpl as r;
+    let kl = KeyPair::<B>::Local(local_key::<B>(key));
+    let d = || json!({"backend": B::NAME, "header": kl.header_x(), "message_len": msg.len(), "footer_len": footer.len(), "assertion_len": aad.len()});
+    r::set_suffix("x");
+    let want = join_token(&kl.header_x(), &r::local_seal::<P>(B::VER, key, nonce, msg, footer, aad), footer);
+    if !matches!(guard(|| kl.seal_x(Some(nonce), msg, footer, aad)), Ok(Ok(t)) if t == want) {
+        rep.violation(&format!("C15|{}|local|header-piece-differs:suffixed", B::NAME), d());
+    }
+    if !matches!(guard(|| kl.open_x(&want, aad)), Ok(Ok((m, _))) if m == msg) {
+        rep.violation(&format!("C15|{}|local|header-piece-differs:suffixed:open", B::NAME), d());
+    }
+    if B::VER != 1 {
+        if let Ok(Ok(t)) = guard(|| kp.seal_x(None, msg, footer, aad)) {
+            let (_, body, f) = split_token(&t);
+            if r::public_verify::<P>(B::VER, pk_raw, &body, &f, aad).as_deref() != Some(msg) {
+                rep.violation(&format!("C15|{}|public|header-piece-differs:suffixed", B::NAME), d());
+            }
+        }
+    }
+    r::set_suffix("");
+    rep.count(&format!("{}.suffixed-header-cases", B::NAME));
+}
+
+
 /// The digest / MAC adapters the backends pass to pre_auth_encode are private; their only visible
 /// effect is the tag or signature. For every backend, tokens whose message, footer and assertion
 /// take every length of the fragment grid (incl. 0 and lengths above any plausible internal buffer)
@@ -180,6 +208,9 @@ fn adapters<B: crate::backend::Backend, P: crate::prims::Prims>(opts: &Opts, rep
                     }
                     _ => rep.violation(&format!("C15|{}|public|sign-failed", B::NAME), detail("sign failed")),
                 }
+                if idx % 2 == 1 {
+                    suffixed_header::<B, P>(rep, &kp, &pk_raw, &key, &nonce, &msg, &footer, &aad);
+                }
                 rep.sample_class(&class, 1, || detail("tag and signature are over exactly the specification's PAE"));
             }
         }
@@ -213,6 +244,9 @@ fn adapters<B: crate::backend::Backend, P: crate::prims::Prims>(opts: &Opts, rep
             }
             if !matches!(guard(|| kl.open(&want, &aad)), Ok(Ok((m, _))) if m == msg) {
                 rep.violation(&format!("C15|{}|local|mac-adapter-saw-different-bytes:open", B::NAME), d());
+            }
+            if len % 4 == 1 {
+                suffixed_header::<B, P>(rep, &kp, &pk_raw, &key, &nonce, &msg, &footer, &aad);
             }
             if B::VER != 1 || len % 9 == 0 {
                 if let Ok(Ok(t)) = guard(|| kp.seal(&msg, &footer, &aad)) {
